@@ -361,7 +361,9 @@ theorem step_solvent {w : World} (blk : Block) (op : Op) (hs : Solvent w) (hv : 
 arbitrary fields, acknowledgements and timeouts, governance ops and migrations, with payout / refund
 sub-calls failing arbitrarily — for every denomination the contract's actual holdings are at least the
 sum over all channels of the outstanding balance it reports.  (The contract is funded only through
-transfers: a real token calls the hook only from `Send`; the contract never calls itself.) -/
+transfers: a real token calls the hook only from `Send`; the contract never calls itself — the
+environment assumptions E1, E2 are built into `World.exec`; `solvency_explicit_env` has them as explicit
+hypotheses.)  Superseded by `solvency_with_migration`, which drops the version hypothesis. -/
 theorem solvency (w : World) (ops : List (Block × Op)) (hs : Solvent w) (hv : PostV3 w) :
     Solvent (run w ops) ∧ PostV3 (run w ops) := by
   induction ops generalizing w with
